@@ -61,6 +61,7 @@ def case(ctx, rng, idx, state):
     if "CC" in keys:
         calcs["Morb"] = wb.calculators.static.Morb(Efermi=Ef)
         calcs["tab"].tabulators["morb"] = wb.calculators.tabulate.OrbitalMoment()
+    ctx.count('calculator_options_' + ('+'.join(sorted(runkit.big_basket.last_options)) or 'default'))
     twins = runkit.raw_twins(calcs)
     calcs_run = dict(calcs, **twins)
     ks = np.array([(i / N[0], j / N[1], k / N[2]) for i in range(N[0]) for j in range(N[1]) for k in range(N[2])])
